@@ -156,10 +156,14 @@ def factories(ctx):
                         ctx.oblige(f"C03/{tag}/post/flip_has_the_flow_shape#{n_}", z3.BoolVal(isinstance(fs, tuple) and len(fs) == 1) if not (isinstance(fs, tuple) and len(fs) == 1) else lift(fs[0]) == dimv, p.cond, props, fn=f"{MOD}._add_default_permute", replay=rp)
                     elif perm.kind == "Permute":
                         pm = perm.args[0]
-                        okp = isinstance(pm, Rec) and pm.kind == "permutation" and isinstance(pm.args[1], Rec) and pm.args[1].kind == "arange"
+                        # jr.permutation(key, n) and jr.permutation(key, arange(n)) are the same call (documented): both accepted
+                        okp = isinstance(pm, Rec) and pm.kind == "permutation"
+                        what = pm.args[1] if okp else None
+                        count = what.args[0] if (isinstance(what, Rec) and what.kind == "arange") else what
+                        okp = okp and isinstance(count, (SV, int))
                         ctx.oblige(f"C03/{tag}/struct/random_permutation_of_all_coordinates#{n_}", bool(okp), [], props, kind="struct", fn=f"{MOD}._add_default_permute")
                         if okp:
-                            ctx.oblige(f"C03/{tag}/post/permutation_of_all_coordinates#{n_}", lift(pm.args[1].args[0]) == dimv, p.cond + [dimv >= 1], props, fn=f"{MOD}._add_default_permute", replay=rp)
+                            ctx.oblige(f"C03/{tag}/post/permutation_of_all_coordinates#{n_}", lift(count) == dimv, p.cond + [dimv >= 1], props, fn=f"{MOD}._add_default_permute", replay=rp)
                     else:
                         ctx.oblige(f"C03/{tag}/struct/known_permutation_kind#{n_}", False, [], props, kind="struct", fn=f"{MOD}._add_default_permute")
                     # layer arguments
